@@ -18,26 +18,32 @@ ID = "C14"
 LEVEL = "proof"
 ENGINES = ["lean-model", "kopfsim"]
 TIE = "S: step refinement — each real processing cycle replayed through the Lean `C14.step` (memory flags, cause, gate, pass)"
-LEVEL_TEXT = ("Lean theorems over all event histories of one object in one process: resume_invoked_only_initial, not_for_new, "
-              "after_fully_handled_never (re-listings/reconnects/later changes never repeat it once fully handled), eligible_selected, "
-              "and the at-most-once clause as resume_never_again_partial / completed_never_again_partial under the guard `Stable` "
-              "(handler keeps matching while the object is being handled); the guard is shown necessary by flipflop_reruns_witness, "
-              "which reproduces on the real code (known finding F9). Model tied to the code per cycle on seeded simulations.")
+LEVEL_TEXT = ("Lean theorems over all event histories of one object in one process: resume_invoked_only_initial (never for a creation, "
+              "never on an object being deleted without opt-in), not_for_new, after_fully_handled_never (re-listings/reconnects/later "
+              "changes never repeat anything once the object is fully handled), and the at-most-once clause UNGUARDED: "
+              "completed_never_again — after the step in which a resume handler reached a final outcome it is never invoked again "
+              "in this process, for every continuation and for EVERY view of the stored progress each later event carries (stale "
+              "bodies, lost patches, purged records), via the in-memory `resumed_handlers` of /repo 6c4463d (the repaired finding "
+              "F9 and the stale-view re-run are regression theorems). First clause: eligible_selected (any lifecycle) and "
+              "eligible_invoked (first attempt, all-at-once, unchanged object); completion over several passes is C03's subject. "
+              "Model tied to the code per cycle (memory incl. resumed_handlers, cause, selection, invocations, records).")
 THEOREMS = [("Kopf.Props.C14", "Kopf.C14." + n) for n in [
-    "invoked_gated", "resume_invoked_only_initial", "not_for_new", "after_fully_handled_never",
-    "resume_never_again_partial", "completed_never_again_partial", "eligible_selected", "eligible_invoked", "reason_not_noop_of_initial", "flipflop_reruns_witness"]]
+    "resume_invoked_only_initial", "not_for_new", "after_fully_handled_never",
+    "resumed_not_selected", "completed_never_again", "completed_never_again_run",
+    "eligible_selected", "eligible_invoked", "flipflop_regression", "stale_view_regression"]]
 RULE = ("seeded scenarios: objects handled by a first incarnation, then stop/kill + restart; 1-3 resume handlers (label filters, "
         "deleted opt-in, failures/retries) next to create/update/delete handlers; re-listings (history compaction + 410), "
         "stream reconnects, edits and label flip-flops before/during/after the resume cycle, deletions; one case = one processing "
         "cycle; distinct & non-trivial = distinct (memory flags, reason, selected kinds, outcome shape) with a resume handler selected or gated out")
 TRUSTED = c02.TRUSTED
 ASSUMPTIONS = ["filters (`registries.match`) enter the model as the observed per-handler match result (C15's subject)",
-               "`C14.run` threads the progress records functionally: every write of a cycle is assumed persisted and visible to the "
-               "next event (no lost patch, no stale view after the consistency timeout, no kill between a handler call and its "
-               "patch); outside that, a completed resume handler can run again exactly as C02's `stale_view_reruns` shows — the "
-               "property's quantifier does not range over those environments, the closed-loop oracle does exercise kills/restarts",
-               "`eligible_invoked` is proved for the all-at-once lifecycle; for one-by-one/asap only selection (`eligible_selected`) "
-               "and C03's eventual completion apply"]
+               "`eligible_invoked` is proved for the all-at-once lifecycle and an unchanged object (resume cause); for one-by-one/asap "
+               "and for objects edited while the operator was down (update cause with the resume handlers mixed in) only selection "
+               "(`eligible_selected` / `matching_selected`) is proved; eventual completion is C03's subject",
+               "handler ids are unique among the resuming handlers (`hres`: every registration under the id is a resuming one); "
+               "a function stacked as @on.resume + @on.update under ONE id is outside the theorems (not generated either)",
+               "one operator process = one memory: a restart is a fresh `run … none`; nothing is claimed across processes "
+               "(the property allows one run per process)"]
 
 F9_SIG = {"site": "process_changing_cause", "shape": "completed resume handler re-run after its finished record was purged in an open cycle in which the handler was not selected"}
 
@@ -99,6 +105,62 @@ def gen_scenario(rng: Any, i: int) -> dict:
             "end": t + 25.0}
 
 
+def gen_relist_midcycle(rng: Any, i: int) -> dict:
+    """A re-listing (410 Gone) or reconnect made WHILE a resume handler of a multi-cycle resume is running:
+    the re-listed view is older than the progress patch that follows and is processed after it."""
+    nres = rng.choice([2, 2, 3])
+    handlers: list[dict] = []
+    for k in range(nres):
+        script: list = []
+        if k == 0 or rng.random() < 0.5:
+            script.append(["sleep", rng.choice([0.5, 1.0, 2.0]), "ok"])
+        elif rng.random() < 0.3:
+            script.append(["temp", rng.choice([1.0, 3.0])])
+        handlers.append({"kind": "resume", "id": f"r{k}", "opts": {}, "script": script, "default": "ok"})
+    if rng.random() < 0.5:
+        handlers.append({"kind": "update", "id": "u0", "script": ["ok"]})
+    tl: list[list] = [[1.0, "create", "o0", {"spec": {"x": 0}, "metadata": {"labels": {"l": "1"}}}],
+                      [8.0, rng.choice(["stop", "kill"])], [9.0, "start"]]
+    t = 9.0
+    for _ in range(rng.choice([1, 1, 2, 3])):
+        t += rng.choice([0.125, 0.25, 0.5, 0.75, 1.0])
+        op = rng.choice(["relist", "relist", "reconnect", "edit"])
+        if op == "relist":
+            tl += [[t, "compact"], [t, "break", "410"]]
+        elif op == "reconnect":
+            tl.append([t, "break", rng.choice(["eof", "conn"])])
+        else:
+            tl.append([t, "edit", "o0", {"spec": {"x": rng.randrange(1, 5)}}])
+    return {"seed": i, "lifecycle": rng.choice(["asap", "one_by_one", "one_by_one", "all_at_once"]), "handlers": handlers,
+            "timeline": tl, "settings": {"execution.default_backoff": 1.0, "watching.reconnect_backoff": 0.125},
+            "end": t + 25.0}
+
+
+def gen_stale_view(rng: Any, i: int) -> dict:
+    """A body older than the just-written progress is processed after the consistency timeout: a foreign edit
+    lands while a resume handler runs, and the echo of the operator's own patch is late (slow watch, or the
+    API unreachable for a while); a sibling keeps the cycle open."""
+    handlers = [
+        {"kind": "resume", "id": "r1", "script": [["sleep", rng.choice([0.5, 1.5, 2.5]), rng.choice(["ok", "ok", "perm"])]]},
+        {"kind": "resume", "id": "r2", "script": [["temp", rng.choice([8, 12, 20])], "ok"]}]
+    if rng.random() < 0.4:
+        handlers.append({"kind": "update", "id": "u0", "script": ["ok"]})
+    essence = {"spec": {"x": 1}, "metadata": {"labels": {"l": "1"}}}
+    obj = {"name": "a", "body": {"spec": {"x": 1}, "metadata": {"labels": {"l": "1"}, "annotations": {
+        "kopf.zalando.org/last-handled-configuration": json.dumps(essence, separators=(",", ":")) + "\n"}}}}
+    t = rng.choice([0.25, 0.5, 1.0])
+    edit = rng.choice([{"metadata": {"annotations": {"foo": "bar"}}}, {"spec": {"x": 2}}, {"status": {"s": 1}}])
+    sc: dict[str, Any] = {"seed": i, "lifecycle": rng.choice(["all_at_once", "asap", "one_by_one"]), "handlers": handlers,
+                          "objects": [obj], "timeline": [[t, "edit", "a", edit]], "end": 45}
+    if rng.random() < 0.5:
+        sc["echo_delay"] = {"default": 0, "rules": [[3, None, rng.choice([5.5, 6.0, 9.0])]]}
+    else:
+        sc["timeline"].append([t + 0.25, "break", "conn"])
+        sc["faults"] = [{"match": {"method": "GET", "watch": True, "path_contains": "kopfexamples", "after": t + 0.2},
+                         "fault": ["conn-before"], "times": rng.choice([5, 7, 9])}]
+    return sc
+
+
 def _decls(sc: dict) -> list[dict]:
     out = []
     for h in sc["handlers"]:
@@ -117,7 +179,7 @@ def oracle(ctx: Ctx, sc: dict, tr: dict) -> None:
     # completions per (incarnation, uid, resume handler)
     done: dict[tuple, list[dict]] = {}
     for c in tr["calls"]:
-        if c["id"] in resume_ids and c.get("outcome") == "ok":
+        if c["id"] in resume_ids and c.get("outcome") in ("ok", "perm"):
             done.setdefault((c["inc"], c["uid"], c["id"]), []).append(c)
         if c["id"] in resume_ids and c.get("marked") and not resume_ids[c["id"]].get("opts", {}).get("deleted"):
             ctx.oracle_fail(f"resume handler {c['id']} invoked on an object being deleted without opting in",
@@ -161,6 +223,8 @@ def run(ctx: Ctx) -> None:
     n = ctx.budget(120, 3000)
     scenarios = [d.get("scenario", d) for _, d in load_corpus(ID)]
     scenarios += [gen_scenario(ctx.rng, ctx.seed * 100000 + i) for i in range(n)]
+    scenarios += [gen_relist_midcycle(ctx.rng, 70_000_000 + ctx.seed * 100000 + i) for i in range(max(12, n // 4))]
+    scenarios += [gen_stale_view(ctx.rng, 80_000_000 + ctx.seed * 100000 + i) for i in range(max(8, n // 8))]
     results = pool.run_many(scenarios, wall=40.0)
     reqs, impls, where = [], [], []
     for sc, res in zip(scenarios, results):
@@ -190,14 +254,16 @@ def run(ctx: Ctx) -> None:
             owned = [d["id"] for d in decls]
             req = ["C14.step", {
                 "decls": p["decls"] if p else decls,
-                "mem": None if mb is None else {"noticed": mb["noticed_by_listing"], "fullyHandled": mb["fully_handled_once"]},
+                "mem": None if mb is None else {"noticed": mb["noticed_by_listing"], "fullyHandled": mb["fully_handled_once"],
+                                                "resumed": mb.get("resumed_handlers", [])},
                 "flags": flags, "matched": p["matched"] if p else [], "lifecycle": lifecycle,
                 "limits": p["limits"] if p else {}, "P": p["P"] if p else {},
                 "outcomes": {k: {f: v[f] for f in ("final", "delay", "error", "subrefs")} for k, v in ((p or {}).get("outcomes") or {}).items()},
                 "now": p["now"] if p else 0, "now1": (p["now1"] if p and p["now1"] is not None else (p["now"] if p else 0)),
                 "universe": owned}]
             ma = cyc["mem_after"]
-            impl = {"mem": None if ma is None else {"noticed": ma["noticed_by_listing"], "fullyHandled": ma["fully_handled_once"]},
+            impl = {"mem": None if ma is None else {"noticed": ma["noticed_by_listing"], "fullyHandled": ma["fully_handled_once"],
+                                                    "resumed": sorted(ma.get("resumed_handlers", []))},
                     "reason": cause["reason"],
                     "selected": p["selected"] if p else None,
                     "invoked": [[i["id"], i["retry"]] for i in cyc["invoked"] if i["id"] in owned],
@@ -223,6 +289,8 @@ def run(ctx: Ctx) -> None:
             ctx.tie_fail("driver rejected a cycle", {"request": req, "answer": out, **wh})
             continue
         m = out[1]
+        if m["mem"] is not None:
+            m["mem"]["resumed"] = sorted(set(m["mem"]["resumed"]))
         model = {"mem": m["mem"], "reason": m["reason"],
                  "selected": m["selected"] if impl["selected"] is not None else None,
                  "invoked": m["invoked"], "P": m["P"] if impl["P"] is not None else None}
